@@ -47,6 +47,7 @@ def notification_kinds():
         "group-subject": lambda r, p: notif(r, "w:gp2", [("subject", {"s_t": "3", "s_o": J(r), "subject": "new"}, [], None)], group=True, with_participant=True),
         "encrypt-count": lambda r, p: notif(r, "encrypt", [("count", {"value": str(r.randint(0, 9))}, [], None)], with_participant=False),
         "encrypt-identity": lambda r, p: notif(r, "encrypt", [("identity", {}, [], None)], with_participant=False),
+        "encrypt-other": lambda r, p: notif(r, "encrypt", r.choice([[("digest", {}, [], None)], [], [("whatever", {"x": "1"}, [], None)]]), with_participant=False),
         "unknown-type": lambda r, p: notif(r, r.choice(["web", "psa", "server_sync", "mediaretry", "x-" + gen.s_from(r, "abcdef", 4)]), [("whatever", {}, [], None)] if r.random() < 0.6 else [], with_participant=p),
         "unknown-subject-type": lambda r, p: notif(r, "subject", [], with_participant=p),
     }
